@@ -214,6 +214,7 @@ def plan(prop, tier):
         P += S("debug", "sweep", shards=2, maxlen=100 if q else 200, dense=50 if q else 100, timeout=1800)
         P += S("release", "limits", n=300 if q else 3000, shards=2) + S("debug", "limits", n=300 if q else 3000, shards=2)
         P += S("release", "withcap", shards=2 if q else 6, max=1200 if q else 4000) + S("debug", "withcap", shards=1, max=300 if q else 1000)
+        P += S("release", "zst", depth=4) + S("debug", "zst", depth=3 if q else 4)
     elif prop == "C11":
         P += S("release", "hist", n=8000 if q else 40000, shards=4, profile="clone")
         P += S("release", "clones", n=6000 if q else 60000, shards=8)
@@ -245,6 +246,9 @@ def plan(prop, tier):
                               "transcript": f"{prof}-{i}"})
         for fl in ("release", "debug"):
             P.append({"fl": fl, "args": ["limits", "--n", str(400 if q else 3000), "--shard", "0/1"], "timeout": 1800, "leaks_ok": False, "transcript": "limits-0"})
+            # every history of zero-sized-element operations (debug-only assertions of the
+            # dependency live there: offset_from on zero-sized pointees)
+            P.append({"fl": fl, "args": ["zst", "--depth", "4", "--shard", "0/1"], "timeout": 1800, "leaks_ok": False, "transcript": "zst-0"})
     else:
         raise SystemExit(f"unknown property {prop}")
     if q:
